@@ -82,6 +82,21 @@ PROPS = {
             "native solver, and by a rational oracle sweep over the property's regime - not by a theorem.",
             "Coq theorem in exact rational arithmetic + bit-exact SpecFloat mirror compared with the native solver inside Coq + source-shape tie + oracle sweep",
             "g++ build of the real tak.cpp; torch float32 elementwise ops mirrored by SpecFloat (24,128); source fragments scraped by regex (a renamed variable breaks the tie).", "6/C10"),
+    "C11": (True, "Full. play_one_game modelled over a stream of engine answers (candidates, probabilities, value, v_zero, sampled "
+            "index) with the code's precedence (ply-limit test, then rules, then analysis, recording, resignation): the four lists are "
+            "aligned and are the engine's answers; the first position is the initial one and each next position = move (previous) "
+            "(a recorded candidate), ply = index; play stops at the first over-limit / terminal position or at |v_zero| >= threshold "
+            "and not earlier; result = winner by the rules, the side the sign of v_zero favours on resignation, None for draws and "
+            "the limit; labels +1/-1 by side to move relative to the winner, 0 throughout when None. Candidate legality and "
+            "probabilities being a distribution are hypotheses here (C08/C09 supply them for the real engine).",
+            "Coq theorem (loop = relational run, induction over the answer stream) + differential correspondence in Coq with scripted engines forcing every ending class",
+            "Scripted engine objects and recorded torch.multinomial in the harness; float values dyadic.", "6/C11"),
+    "C12": (True, "Full. encode_games (rows in game then ply order with padded tokens, mask, dense policy row with each candidate's "
+            "probability at its move id and 0 elsewhere, value, label) and dedup_batch (keys = masked token strings, first-occurrence "
+            "order, fieldwise arithmetic means over occurrences, tokens and mask of the first occurrence, identity on duplicate-free "
+            "batches) modelled on lists over Q with the per-position token encoding as a Section variable (C06 is the theorem about "
+            "it).", "Coq theorem (list induction; first-occurrence order and means over Q) + differential correspondence in Coq with dyadic targets",
+            "dedup_batch / encode_games run from the real source; targets dyadic so float32 sums are exact, means compared within 1 ulp32.", "6/C12"),
     "C13": (True, "Full. format/parse modelled statement by statement over code points (str.split/join proved characterised): "
             "parse(format p) = p for every well-formed position with standard reserves; format(parse s) = s for canonical text; the "
             "accepted text means what the TPS standard says pointwise (square (x,y) = the x-th expanded cell of rank size-1-y read "
